@@ -36,9 +36,9 @@ func (w *vWorld) writeAttempts(from int, kind string) (attempted, done []bool) {
 }
 
 // VerifHarness_C08: scale-down taints the oldest untainted nodes first.
-// shape: [nodes, failure budget, zero-time choice (0/1), tainted siblings (0/1)]
+// shape: [nodes, failure budget, zero-time choice (0/1), tainted siblings (0/1), no-delete annotations (0/1)]
 func VerifHarness_C08() {
-	N, F, zero, sib := verifShape(0), verifShape(1), verifShape(2), verifShape(3)
+	N, F, zero, sib, ann := verifShape(0), verifShape(1), verifShape(2), verifShape(3), verifShape(4)
 	w := newWorld(F)
 	o := groupOpts(0)
 	o.MinNodes, o.MaxNodes = 0, N+2
@@ -49,7 +49,11 @@ func VerifHarness_C08() {
 	if sib == 1 {
 		classes = []int{tcNone, tcEsc}
 	}
-	w.symNodes("", g, N, classes, false, []int{0}, true)
+	annots := []int{0}
+	if ann == 1 {
+		annots = []int{0, 2} // the annotation protects from removal, not from tainting
+	}
+	w.symNodes("", g, N, classes, false, annots, true)
 	if zero == 1 {
 		for i, n := range w.nodes {
 			if verifChoice("n"+strconv.Itoa(i)+".zeroCreation", 2) == 1 {
@@ -98,7 +102,7 @@ func VerifHarness_C09() {
 	g := w.addGroup(o, 0, int64(N)+3, 0)
 	classes := [][]int{{tcNone, tcEsc, tcForce}, {tcNone, tcEsc, tcForce, tcEscAndForce, tcEscGarbage}}[menu]
 	w.symNodes("", g, N, classes, true, []int{0, 2}, false)
-	w.symPods("", g, P, 1, false, -3*w.cpuPerNode, false)
+	w.symPods("", g, P, 0, false, -3*w.cpuPerNode, false) // pods may sit on cordoned nodes too
 	w.build()
 	s := w.snap(g)
 	verifFreezeClock(w.base+1, 0)
@@ -153,7 +157,7 @@ func VerifHarness_C10() {
 	o.MinNodes, o.MaxNodes = 0, N+3
 	o.FastNodeRemovalRate, o.SlowNodeRemovalRate = 1, 1
 	g := w.addGroup(o, 0, int64(N)+3, 0)
-	w.symNodes("", g, N, []int{tcNone, tcEsc, tcForce}, false, []int{0, 1, 2}, false)
+	w.symNodes("", g, N, []int{tcNone, tcEsc, tcForce}, false, []int{0, 1, 2, 3, 4}, false)
 	cpu := int64(10)
 	if band == 2 {
 		cpu = -2 * w.cpuPerNode
